@@ -22,7 +22,7 @@ def ob(n, cause, nsib, timeout) -> Obligation:
     pres = [f"-2147483648 <= {p.split(':')[0]} <= 2147483647" for p in params if p.endswith("int") and not p.startswith("extra")] + ["0 <= extra <= 2"]
     items = "[" + ", ".join(f"a{k}" for k in range(n)) + "]"
     sibs = "[" + ", ".join(f"s{k}" for k in range(nsib)) + "]"
-    if cause == "exec_end":
+    if cause.startswith("exec_end"):
         # the body's source text needs concrete item values: enumerate a fixed catalogue instead
         params = [p for p in params if not p.startswith("a")]
         pres = [p for p in pres if not any(f"<= a{k} <=" in p for k in range(n))]
@@ -36,7 +36,7 @@ def build(tier):
     thorough = tier == "thorough"
     t = 1200 if thorough else 200
     obs = []
-    for cause in ("close", "exec_end", "drop"):
+    for cause in ("close", "exec_end", "exec_end_eof", "drop", "sendonly_then_close"):
         for n in ((0, 1, 2, 3) if thorough else (0, 2)):
             obs.append(ob(n, cause, 2, t))
     return obs
@@ -57,7 +57,7 @@ def run(tier: str) -> Outcome:
             "end of remote_exec = real WorkerGateway.executetask on a generated body; reference drop = explicit Channel.__del__ + weak-table removal (CPython refcounting)",
             "gateway_base's sys.stderr swallows warnings inside harnesses; opaque int rendering in messages",
         ],
-        bounds=("0 and 2 (thorough 0-3) items, then the channel is closed explicitly / by the end of the remote_exec (incl. a refused explicit close from inside) / by "
+        bounds=("0 and 2 (thorough 0-3) items, then the channel is closed explicitly / by the end of the remote_exec (normal end or EOFError; incl. a refused explicit close from inside) / explicitly after the peer went send-only / by "
                 "dropping the last reference; item values and sibling-channel traffic symbolic; 1-3 receive() calls after the end (symbolic); symbolic chunking of the first read"),
         outside=["several receivers blocked concurrently in receive() while the close arrives (ENDMARKER re-queue under real threads): schedule part, not decided here",
                  "a dropped channel that had a callback (CHANNEL_LAST_MESSAGE leaves the peer send-only by design)", "GC timing other than refcount-immediate"],
